@@ -144,7 +144,7 @@ fn cmd_worker(args: &[String]) -> i32 {
         for v in s.viols {
             if v.prop == prop || v.prop == "HARNESS" {
                 if viols.len() < 64 {
-                    viols.push(json!({"run": run, "violation": v.to_json(), "signature": v.signature()}));
+                    viols.push(json!({"run": run, "violation": v.to_json(), "signature": v.signature(), "checked": cfg!(debug_assertions)}));
                 }
             } else {
                 *other.entry(v.signature()).or_insert(0) += 1;
@@ -218,7 +218,11 @@ fn cmd_check(args: &[String]) -> i32 {
     let mut children = Vec::new();
     for w in 0..jobs {
         let cur = scratch.join(format!("w{}.cur", w));
-        let child = Command::new(&exe)
+        let wexe = match std::env::var("RSIM_CHECKED_EXE") {
+            Ok(p) if prop == "C04" && w % 2 == 1 && std::path::Path::new(&p).exists() => std::path::PathBuf::from(p),
+            _ => exe.clone(),
+        };
+        let child = Command::new(&wexe)
             .args(["worker", "--prop", &prop, "--seed", &seed.to_string(), "--start", &w.to_string(), "--stride", &jobs.to_string(), "--count", &per.to_string(), "--tier", &tier, "--budget", &plan.budget_s.to_string(), "--cur", cur.to_str().unwrap()])
             .stdout(Stdio::piped())
             .stderr(Stdio::inherit())
@@ -243,6 +247,7 @@ fn cmd_check(args: &[String]) -> i32 {
     let mut samples: Vec<Value> = Vec::new();
     // signature -> (lowest run, violation json)
     let mut found: BTreeMap<String, (u64, Value)> = BTreeMap::new();
+    let mut found_checked: BTreeSet<String> = BTreeSet::new();
     let mut harness_error = false;
     let mut harness_note_partial = false;
     // per-run watchdog: a worker whose announced run index does not change for WATCHDOG_S seconds is killed;
@@ -350,6 +355,9 @@ fn cmd_check(args: &[String]) -> i32 {
         for v in j["violations"].as_array().cloned().unwrap_or_default() {
             let sig = v["signature"].as_str().unwrap_or("").to_string();
             let run = v["run"].as_u64().unwrap_or(0);
+            if v["checked"].as_bool().unwrap_or(false) && !found.contains_key(&sig) {
+                found_checked.insert(sig.clone());
+            }
             let e = found.entry(sig).or_insert((run, v["violation"].clone()));
             if run < e.0 {
                 *e = (run, v["violation"].clone());
@@ -378,12 +386,24 @@ fn cmd_check(args: &[String]) -> i32 {
         let safe: String = sig.chars().map(|c| if c.is_alphanumeric() { c } else { '_' }).take(60).collect();
         let path = format!("{}/replays/{}-{}-{}-{}.json", VERIF_DIR, prop, seed, run, safe);
         let is_proc = sig.contains("|watchdog|") || sig.contains("|process_killed|");
+        let exe = match std::env::var("RSIM_CHECKED_EXE") {
+            Ok(p) if found_checked.contains(sig) => std::path::PathBuf::from(p),
+            _ => exe.clone(),
+        };
         let st = if is_proc { None } else { run_timeout(Command::new(&exe).args(["minimise", "--prop", &prop, "--seed", &seed.to_string(), "--run", &run.to_string(), "--tier", &tier, "--sig", sig, "--out", &path]), 600.0) };
         let wrote = matches!(st, Some(s) if s.success()) && std::path::Path::new(&path).exists();
         if !wrote {
             // fall back to a seed-addressed replay file
             let j = json!({"format": "rsim-replay-1", "scenario": "seed", "property": prop, "seed": seed, "run": run, "tier": tier, "signature": sig, "violation": v});
             let _ = std::fs::write(&path, serde_json::to_string_pretty(&j).unwrap());
+        }
+        if found_checked.contains(sig) {
+            if let Ok(t) = std::fs::read_to_string(&path) {
+                if let Ok(mut j) = serde_json::from_str::<Value>(&t) {
+                    j["profile"] = json!("checked");
+                    let _ = std::fs::write(&path, serde_json::to_string_pretty(&j).unwrap());
+                }
+            }
         }
         let conf = run_timeout(Command::new(&exe).args(["replay", &path]).stdout(Stdio::null()), plan.watchdog_s + 10.0);
         let reproduced = match conf {
@@ -508,6 +528,15 @@ fn cmd_replay(args: &[String]) -> i32 {
         return 2;
     };
     let want = j["signature"].as_str().unwrap_or("").to_string();
+    if j["profile"].as_str() == Some("checked") && !cfg!(debug_assertions) {
+        // found by the overflow-checked build: re-execute with that binary
+        let alt = std::env::var("RSIM_CHECKED_EXE").ok().map(std::path::PathBuf::from).or_else(|| std::env::current_exe().ok().and_then(|e| e.parent().and_then(|p| p.parent()).map(|p| p.join("checked").join("rsim"))));
+        if let Some(alt) = alt.filter(|a| a.exists()) {
+            return Command::new(alt).args(["replay", path]).status().ok().and_then(|s| s.code()).unwrap_or(2);
+        }
+        eprintln!("checked-profile binary not found; build with ./check build");
+        return 2;
+    }
     let viols = scen::replay(&j);
     let mut hit = false;
     for v in &viols {
